@@ -258,7 +258,7 @@ func RunPolicyCase(cs map[string]any, id int, seed int64) Result {
 				pol.TdQuoteBodyPolicy = nil
 			}
 		}
-		o := Guard(10*time.Second, func() error {
+		o := Guard(90*time.Second, func() error {
 			var err error
 			opts, err = validate.PolicyToOptions(pol)
 			return err
@@ -281,10 +281,10 @@ func RunPolicyCase(cs map[string]any, id int, seed int64) Result {
 	}
 	rawSame := true
 	if result == "" {
-		o := Guard(10*time.Second, func() error { return validate.TdxQuote(msg, opts) })
+		o := Guard(90*time.Second, func() error { return validate.TdxQuote(msg, opts) })
 		result = map[string]string{"accept": "ok", "reject": "reject", "panic": "panic", "timeout": "timeout"}[o.Verdict()]
 		detail = o.ErrText()
-		o2 := Guard(10*time.Second, func() error { return validate.RawTdxQuote(raw, opts) })
+		o2 := Guard(90*time.Second, func() error { return validate.RawTdxQuote(raw, opts) })
 		rawSame = o2.Verdict() == o.Verdict()
 	}
 	_ = pb.QuoteV4{}
